@@ -545,7 +545,9 @@ pub fn families(thorough: bool) -> Vec<Family> {
     let mut v = vec![option_pairs(), ip_header_grid(), link_grid()];
     // connection alphabet, every frame mutated in the context of its connection; odd connections in Ethernet framing
     let mut items = vec![];
-    for (ci, c) in c07::connections().into_iter().enumerate() {
+    // (the twins and one-component variants C07 adds to its alphabet are the same frames with other addresses: the quick
+    // tier mutates the 20 connections with distinct contents, the thorough tier all of them)
+    for (ci, c) in c07::connections().into_iter().enumerate().filter(|(ci, _)| thorough || *ci < 20) {
         let frames: Vec<Vec<u8>> = c.pkts.into_iter().map(|p| if ci % 2 == 1 { pkt::frame(Link::Ethernet, &p.0) } else { p.0 }).collect();
         let t = Arc::new(frames);
         for j in 0..t.len() {
@@ -608,7 +610,7 @@ fn run_family(fi: usize, fam: &Family, pools: bool) -> Report {
         for c in rg {
             let (lo, hi) = (c * chunk, ((c + 1) * chunk).min(fam.len));
             // quick tier: families of more than 64 slices are listened to (log arguments evaluated) on every third slice
-            crate::logsink::listen(QUICK_LISTEN_ALL.load(std::sync::atomic::Ordering::Relaxed) || chunks <= 64 || c % 3 == 0);
+            crate::logsink::listen(QUICK_LISTEN_ALL.load(std::sync::atomic::Ordering::Relaxed) || chunks <= 64 || c % 5 == 0);
             let mut s = Session::new();
             let mut slow: u128 = 0;
             let mut all: Vec<Vec<u8>> = vec![];
@@ -1137,7 +1139,7 @@ fn run_stream_family(fi: usize, fam: &SFamily) -> Report {
         let mut r = Report::new();
         for c in rg {
             let (lo, hi) = (c * chunk, ((c + 1) * chunk).min(fam.len));
-            crate::logsink::listen(QUICK_LISTEN_ALL.load(std::sync::atomic::Ordering::Relaxed) || chunks <= 32 || c % 3 == 0);
+            crate::logsink::listen(QUICK_LISTEN_ALL.load(std::sync::atomic::Ordering::Relaxed) || chunks <= 32 || c % 5 == 0);
             let mut s = StreamSession::new();
             let mut start = lo;
             for i in lo..hi {
